@@ -9,7 +9,8 @@ unregistered) whose client is the program of generation `g'`.  The invariant of 
 (`good`, `dbGood`) are restricted to records whose signature the program can give the rule
 (`SigOf`).  Here the generation-independent part is added (`GoodAll`: a stored record is a completed
 execution of EVERY generation that can give the rule the stored signature) and shown to be preserved
-under the client obligation `SigCovers` (equal signatures mean equal task definitions) and
+under the client obligation `SigCoversValid` (equal signatures mean equal task definitions, for rules
+that can accept a stored value at all; `SigCovers` is the stronger form without that proviso) and
 `SelfStable` (an input rule reads the external state the same way in every generation).
 -/
 import LLBuild.Lemmas.Engine.Run
@@ -73,6 +74,36 @@ theorem SigCovers.changed {PP : Nat → Program} (hC : SigCovers PP) {g g' : Nat
   · exact h1 b
   · exact h1 (c e r)
 
+/-- **The signature covers the definition of every rule whose stored result can be reused.**  The
+obligation of `SigCovers` restricted to pairs of generations (`g` the one that produced a record, `g'`
+the one that may consume it) such that the rule of the CONSUMING generation can accept a stored value
+at all (`CanValid (PP g') k`: `valid env k v = true` for some `env`, `v`).  A rule that never accepts
+its stored value (e.g. a BuildSystem target: no signature, `isResultValid = false`) is re-run in every
+build (reason 2), its stored record is never reused, and its definition may change freely under a
+constant signature.  (As `g`, `g'` range over all generations, the obligation binds a pair as soon as
+ONE of the two generations can accept a value.) -/
+structure SigCoversValid (PP : Nat → Program) : Prop where
+  wf : ∀ g, (PP g).WF
+  covers : ∀ g g' k env env', CanValid (PP g') k → (PP g).sig env k = (PP g').sig env' k →
+      (PP g).next k = (PP g').next k ∧ (PP g).disc k = (PP g').disc k ∧
+      (∀ e r, (PP g).out k e r = (PP g').out k e r)
+
+theorem SigCovers.toWeak {PP : Nat → Program} (h : SigCovers PP) : SigCoversValid PP :=
+  ⟨h.wf, fun g g' k env env' _ e => h.covers g g' k env env' e⟩
+
+/-- a changed definition of a rule that can accept a stored value has a changed signature -/
+theorem SigCoversValid.changed {PP : Nat → Program} (hC : SigCoversValid PP) {g g' : Nat} {k : Key}
+    (hv : CanValid (PP g') k)
+    (hne : (PP g).next k ≠ (PP g').next k ∨ (PP g).disc k ≠ (PP g').disc k ∨
+      ∃ e r, (PP g).out k e r ≠ (PP g').out k e r) (env env' : Env) :
+    (PP g).sig env k ≠ (PP g').sig env' k := by
+  intro h
+  obtain ⟨a, b, c⟩ := hC.covers g g' k env env' hv h
+  rcases hne with h1 | h1 | ⟨e, r, h1⟩
+  · exact h1 a
+  · exact h1 b
+  · exact h1 (c e r)
+
 /-- **Input rules are stable**: a rule that reads the external state at its own key (`self`) in two
 generations reads it the same way.  (Needed: a discovered dependency is recorded as the VALUE its
 input rule had; the engine decides "this input is unchanged" by comparing values produced by the
@@ -109,14 +140,14 @@ theorem GoodRec.transfer {P P' : Program} {σ : Store} {k : Key}
   depsSeq := h.depsSeq
   depsDisc := h.depsDisc
 
-/-- a record that is an execution of generation `g` and whose signature generation `g'` can give the
-rule as well is an execution of generation `g'` -/
-theorem GoodRec.transferGen {PP : Nat → Program} (hC : SigCovers PP) (hS : SelfStable PP) {σ : Store} {k : Key}
-    {g g' : Nat} {sg : Nat} (h1 : SigOf (PP g) k sg) (h2 : SigOf (PP g') k sg)
+/-- a record that is an execution of generation `g` and that generation `g'` may reuse (it can give the
+rule the same signature and its rule can accept a stored value) is an execution of generation `g'` -/
+theorem GoodRec.transferGen {PP : Nat → Program} (hC : SigCoversValid PP) (hS : SelfStable PP) {σ : Store} {k : Key}
+    {g g' : Nat} {sg : Nat} (h1 : SigOf (PP g) k sg) (h2 : Reusable (PP g') k sg)
     (h : GoodRec (PP g) σ k) : GoodRec (PP g') σ k := by
   obtain ⟨env, he⟩ := h1
-  obtain ⟨env', he'⟩ := h2
-  obtain ⟨hn, hd, ho⟩ := hC.covers g g' k env env' (he.trans he'.symm)
+  obtain ⟨⟨env', he'⟩, hv⟩ := h2
+  obtain ⟨hn, hd, ho⟩ := hC.covers g g' k env env' hv (he.trans he'.symm)
   refine GoodRec.transfer hn hd ho ?_ h
   intro d hdm
   have s1 := (hC.wf g).disc_self k _ d hdm
@@ -125,10 +156,10 @@ theorem GoodRec.transferGen {PP : Nat → Program} (hC : SigCovers PP) (hS : Sel
 
 /-! ### The generation-independent invariant -/
 
-/-- every row of the store is a completed execution of every generation that can give the rule the
-stored signature -/
+/-- every row of the store is a completed execution of every generation that may reuse it (it can give
+the rule the stored signature and its rule can accept a stored value) -/
 def GoodDb (PP : Nat → Program) (σ : Store) : Prop :=
-  ∀ k, (σ.res k).builtAt ≠ 0 → ∀ g, SigOf (PP g) k (σ.res k).sig → GoodRec (PP g) σ k
+  ∀ k, (σ.res k).builtAt ≠ 0 → ∀ g, Reusable (PP g) k (σ.res k).sig → GoodRec (PP g) σ k
 
 /-- ... for the database and for its last committed snapshot (what a new engine, after a regular end
 or after a crash, starts from; the memory of the old engine is discarded by a reprogram) -/
@@ -141,7 +172,7 @@ theorem GoodAll.init (PP : Nat → Program) : GoodAll PP ({} : St) := ⟨GoodDb.
 
 theorem GoodDb.put {PP : Nat → Program} {σ : Store} {k : Key} {r' : Res} {seq : Seq} {gd : List (Key × Val)} {env : Env}
     (hg : GoodDb PP σ)
-    (hk : r'.builtAt ≠ 0 → ∀ g', SigOf (PP g') k r'.sig → GoodRec (PP g') (putRec σ k r' seq gd env) k) :
+    (hk : r'.builtAt ≠ 0 → ∀ g', Reusable (PP g') k r'.sig → GoodRec (PP g') (putRec σ k r' seq gd env) k) :
     GoodDb PP (putRec σ k r' seq gd env) := by
   intro x hb g' hso
   by_cases e : x = k
@@ -227,24 +258,53 @@ theorem step_cdb_cases {P : Program} {s s' : St} {e : Event} (h : step P s e = s
        · cases h; left; rfl
        · cases h)
 
+/-- the record `finished` writes is a completed execution of the current program (whatever its
+signature and whether or not its rule ever accepts a value) -/
+theorem finished_rec_good {P : Program} {s : St} {k : Key} {row : Res} (hi : Inv P s)
+    (hs : s.status k = .computing) (hts : (s.task k).started = true) (htc : (s.task k).completed = true)
+    (hperm : isPerm (row.deps.take (s.task k).issued.length) ((s.task k).issued.map Req.toDep) = true)
+    (hdrop : row.deps.drop (s.task k).issued.length = discDeps (s.task k).discs) (σ : Store) :
+    GoodRec P (putRec σ k { s.mem.res k with builtAt := s.epoch, deps := row.deps } (s.task k).seq
+      ((s.task k).discs.map (fun d => (d, P.out d s.env []))) s.env) k := by
+  have hfk : inflight s k = true := by simp [inflight, hs]
+  have tk := hi.taskOk k hfk hts
+  obtain ⟨c1, c2, c3⟩ := tk.computing hs
+  have c3 := c3 htc
+  constructor
+  · simp only [putRec, upd_same]; exact tk.valid
+  · simp only [putRec, upd_same]; exact c1
+  · simp only [putRec, upd_same]; exact c3
+  · simp only [putRec, upd_same]; rw [c2]
+  · intro q v hq hk
+    simp only [putRec, upd_same] at hq ⊢
+    have hm : q.toDep ∈ row.deps.take (s.task k).issued.length :=
+      isPerm_mem _ _ hperm _ (List.mem_map.2 ⟨q, by rw [tk.issued]; exact validSeq_issued P k _ tk.valid q v hq, rfl⟩)
+    rw [toDep_plain q hk] at hm
+    exact List.mem_of_mem_take hm
+  · intro d v hd
+    simp only [putRec, upd_same] at hd ⊢
+    obtain ⟨d', hd', e⟩ := List.mem_map.1 hd
+    cases e
+    have hm : (⟨d, false, false⟩ : Dep) ∈ row.deps.drop (s.task k).issued.length := by
+      rw [hdrop]; exact List.mem_map.2 ⟨d, hd', rfl⟩
+    exact List.mem_of_mem_drop hm
+
 /-- `GoodAll` is preserved by every accepted event of the current generation: only `finished` writes a
-row; it is an execution of the current generation (invariant `Inv` of the post-state) and its
-signature is the current rule's (`Inv2.sigComp`), hence — by transfer — an execution of every
-generation that can give the rule that signature. -/
-theorem GoodAll.preserved {PP : Nat → Program} (hC : SigCovers PP) (hS : SelfStable PP) {s s' : St} {g : Nat} {e : Event}
-    (h : step (PP g) s e = some s') (hi : Inv (PP g) s) (hi' : Inv (PP g) s') (h2 : Inv2 s)
+row; it is an execution of the current generation (`finished_rec_good`) and its signature is the
+current rule's (`Inv2.sigComp`), hence — by transfer — an execution of every generation that may reuse it. -/
+theorem GoodAll.preserved {PP : Nat → Program} (hC : SigCoversValid PP) (hS : SelfStable PP) {s s' : St} {g : Nat} {e : Event}
+    (h : step (PP g) s e = some s') (hi : Inv (PP g) s) (h2 : Inv2 s)
     (hg : GoodAll PP s) : GoodAll PP s' := by
   constructor
   · rcases step_db_cases h with hdb | ⟨k, row, rfl⟩ | rfl | rfl
     · rw [hdb]; exact hg.1
     · -- finished
-      have hdbg := hi'.dbGood
       simp only [step] at h
       split at h
       · rename_i hc
         cases h
         simp only [Bool.and_eq_true, beq_iff_eq] at hc
-        obtain ⟨⟨⟨⟨⟨⟨⟨⟨⟨hcomp, _⟩, hdone⟩, _⟩, _⟩, _⟩, _⟩, _⟩, _⟩, _⟩ := hc
+        obtain ⟨⟨⟨⟨⟨⟨⟨⟨⟨hcomp, hts⟩, hdone⟩, _⟩, _⟩, _⟩, _⟩, _⟩, hperm⟩, hdrop⟩ := hc
         have hsig : (s.mem.res k).sig = s.sigAt k := h2.sigComp k hcomp hdone
         have hreg : s.registered k = true := h2.reg k (by rw [hcomp]; simp)
         have hso : SigOf (PP g) k (s.mem.res k).sig := by rw [hsig]; exact hi.sigAtOk k hreg
@@ -252,10 +312,7 @@ theorem GoodAll.preserved {PP : Nat → Program} (hC : SigCovers PP) (hS : SelfS
           (r' := { s.mem.res k with builtAt := s.epoch, deps := row.deps }) (seq := (s.task k).seq)
           (gd := (s.task k).discs.map (fun d => (d, (PP g).out d s.env []))) (env := s.env) hg.1 ?_
         intro hb g' hso'
-        have hb' : (upd s.db.res k { s.mem.res k with builtAt := s.epoch, deps := row.deps } k).builtAt ≠ 0 := by
-          rw [upd_same]; exact hb
-        have hgood := (hdbg k hb').1 (by show SigOf (PP g) k (upd s.db.res k _ k).sig; rw [upd_same]; exact hso)
-        exact GoodRec.transferGen hC hS hso hso' hgood
+        exact GoodRec.transferGen hC hS hso hso' (finished_rec_good hi hcomp hts hdone hperm hdrop s.db)
       · cases h
     · -- crash: the database is the committed snapshot
       simp only [step] at h
@@ -284,8 +341,8 @@ theorem GoodAll.preserved {PP : Nat → Program} (hC : SigCovers PP) (hS : SelfS
 for `P` is the invariant for `P'`. -/
 theorem Inv.reprogram {P P' : Program} {s : St} (hidle : ∀ k, s.status k = .idle)
     (hreg : ∀ k, s.registered k = false) (hpe : s.pending = [])
-    (hmem : ∀ k, (s.mem.res k).builtAt ≠ 0 → SigOf P' k (s.mem.res k).sig → GoodRec P' s.mem k)
-    (hdb : ∀ k, (s.db.res k).builtAt ≠ 0 → SigOf P' k (s.db.res k).sig → GoodRec P' s.db k)
+    (hmem : ∀ k, (s.mem.res k).builtAt ≠ 0 → Reusable P' k (s.mem.res k).sig → GoodRec P' s.mem k)
+    (hdb : ∀ k, (s.db.res k).builtAt ≠ 0 → Reusable P' k (s.db.res k).sig → GoodRec P' s.db k)
     (hi : Inv P s) : Inv P' s := by
   have hnf : ∀ x, inflight s x = false := by intro x; simp [inflight, hidle x]
   constructor
@@ -338,7 +395,7 @@ theorem stepG_inv2 {PP : Nat → Program} {sg sg' : St × Nat} {e : GEvent}
     | some s1 => rw [hs] at h; cases h; exact h2.preserved hs
 
 /-- every event of a history over generations preserves the invariant (unless the F22 ghost flag is set) -/
-theorem stepG_inv {PP : Nat → Program} (hC : SigCovers PP) (hS : SelfStable PP) {sg sg' : St × Nat} {e : GEvent}
+theorem stepG_inv {PP : Nat → Program} (hC : SigCoversValid PP) (hS : SelfStable PP) {sg sg' : St × Nat} {e : GEvent}
     (h : stepG PP sg e = some sg') (h2 : Inv2 sg.1) (hi : InvG PP sg)
     (hd : sg'.1.pendingDropped = false) : InvG PP sg' := by
   obtain ⟨s, g⟩ := sg
@@ -352,7 +409,7 @@ theorem stepG_inv {PP : Nat → Program} (hC : SigCovers PP) (hS : SelfStable PP
       rw [hs] at h; cases h
       have hP := hC.wf g
       have hI1 := step_inv hP hs hI hIC hd
-      exact ⟨hI1, step_invC hP hs hI hIC hd, GoodAll.preserved hC hS hs hI hI1 h2 hG⟩
+      exact ⟨hI1, step_invC hP hs hI hIC hd, GoodAll.preserved hC hS hs hI h2 hG⟩
   | reprogram g' =>
     simp only [stepG] at h
     cases hs : step (PP g) s .restart with
@@ -363,7 +420,7 @@ theorem stepG_inv {PP : Nat → Program} (hC : SigCovers PP) (hS : SelfStable PP
       -- first: a new engine of the SAME generation on the database
       have hI1 : Inv (PP g) s1 := step_inv hP hs hI hIC hd
       have hC1 : InvC (PP g) s1 := step_invC hP hs hI hIC hd
-      have hG1 : GoodAll PP s1 := GoodAll.preserved hC hS hs hI hI1 h2 hG
+      have hG1 : GoodAll PP s1 := GoodAll.preserved hC hS hs hI h2 hG
       -- the restarted state is quiescent
       simp only [step] at hs
       split at hs
@@ -455,7 +512,7 @@ theorem runG_inv2 {PP : Nat → Program} : ∀ (evs : List GEvent) (sg sg' : St 
       simp only [Option.bind] at h
       exact runG_inv2 es s1 sg' h (stepG_inv2 hs h2)
 
-theorem runG_inv {PP : Nat → Program} (hC : SigCovers PP) (hS : SelfStable PP) :
+theorem runG_inv {PP : Nat → Program} (hC : SigCoversValid PP) (hS : SelfStable PP) :
     ∀ (evs : List GEvent) (sg sg' : St × Nat), runG PP sg evs = some sg' → Inv2 sg.1 →
       (sg.1.pendingDropped = true ∨ InvG PP sg) → (sg'.1.pendingDropped = true ∨ InvG PP sg')
   | [], sg, sg', h, _, hi => by simp only [runG, Option.some.injEq] at h; subst h; exact hi
@@ -475,7 +532,7 @@ theorem runG_inv {PP : Nat → Program} (hC : SigCovers PP) (hS : SelfStable PP)
 
 /-- the invariant of the CURRENT generation holds in every state reachable through accepted events
 and reprograms (from an empty database, any first generation) -/
-theorem reachG_inv {PP : Nat → Program} (hC : SigCovers PP) (hS : SelfStable PP) {evs : List GEvent} {g0 : Nat}
+theorem reachG_inv {PP : Nat → Program} (hC : SigCoversValid PP) (hS : SelfStable PP) {evs : List GEvent} {g0 : Nat}
     {s : St} {g : Nat} (h : runG PP ({}, g0) evs = some (s, g)) (hd : s.pendingDropped = false) :
     InvG PP (s, g) := by
   rcases runG_inv hC hS evs ({}, g0) (s, g) h Inv2.init (Or.inr (InvG.init PP g0)) with h1 | h1
